@@ -935,7 +935,18 @@ func (em *emitter) emitSwitch(node *ast.Switch) {
 		}
 	} else {
 		typ = em.typ(node.Expr)
-		expr = em.emitExpr(node.Expr, typ)
+		if ti := em.ti(node.Expr); ti == nil || !ti.HasValue() {
+			// The expression is evaluated once, into a register, and the
+			// cases are compared with the register.
+			expr = em.fb.newRegister(typ.Kind())
+			em.emitExprR(node.Expr, typ, expr)
+			em.fb.bindVarReg("$switchExpr", expr)
+			ident := ast.NewIdentifier(node.Expr.Pos(), "$switchExpr")
+			em.typeInfos[ident] = &typeInfo{Type: typ}
+			node.Expr = ident
+		} else {
+			expr = em.emitExpr(node.Expr, typ)
+		}
 	}
 
 	bodyLabels := make([]label, len(node.Cases))
